@@ -100,6 +100,7 @@ func (s *Topics) Collect(event Event) error {
 	s.mu.RUnlock()
 
 	if topic == nil {
+		verifHook("topic.missing", event.Topic)
 		// Create the empty topic
 		s.mu.Lock()
 		// Check again if the topic was created, now that we have the write lock
